@@ -20,8 +20,77 @@ def stub_ppg(it, func, env, node):
     return it.new_list(out)
 
 
+def _chain_start_verdict(ck, inst, msite, p, gcall, Nb, nb_name, rows):
+    from ..values import show_shape as show
+    """The chains start from the negative batch and the batch itself is left alone - by value and by effect: the very tensor with
+    overwrite=False, or a copy that holds the batch's values and has the batch's number of rows (then it may be advanced in place)."""
+    genv = gcall[5]
+    ist = genv.get("initial_state")
+    ow = genv.get("overwrite")
+    it_term = gcall[7].get("initial_state") if len(gcall) > 7 else None
+    same_obj = isinstance(ist, VTens) and ist.obj is Nb.obj
+    if same_obj:
+        ck.ok("C06.R1", inst + ":chains start from the negative batch", msite)
+        ck.check(isinstance(ow, VConst) and ow.value is False, "C06.R1", inst + ":negative batch not overwritten", msite, "gibbs_steps may overwrite the negative batch")
+        return
+    want = T.sym(nb_name)
+    if isinstance(ist, VTens) and it_term is not None and hasattr(it_term, "single_atom") and ist.shape is not None and len(ist.shape) >= 1:
+        # a buffer whose every row was just overwritten holds what was written: upd(buffer, [:n], V) with n the buffer's own length
+        a_ = it_term.single_atom()
+        if isinstance(a_, T.App) and a_.op == "upd" and len(a_.args[1]) == 1 and isinstance(a_.args[1][0], tuple) and a_.args[1][0][0] == "slice" \
+                and a_.args[1][0][1] in (None, 0) and a_.args[1][0][3] is None and str(a_.args[1][0][2]) == str(ist.shape[0]):
+            it_term = a_.args[2]
+    if isinstance(ist, VTens) and it_term is not None and hasattr(it_term, "syms"):
+        rows_ok = shape_is(ist, (rows, "nv"))
+        if it_term == want and rows_ok is True:
+            ck.ok("C06.R1", inst + ":chains start from the negative batch (a copy holding its values)", msite)
+        elif rows_ok is False or (it_term != want and nb_name in it_term.syms()):
+            ck.violation("C06.R1", inst + ":chains start from the negative batch", msite,
+                         "the chains start from a tensor of shape %s holding %s: not the %s rows of neg_batch and nothing else (rows kept from an earlier, larger batch are advanced and summed "
+                         "into the negative phase as well)" % (show(ist.shape), str(it_term)[:120], rows), key="C06.R1|chains|start is not the negative batch")
+        elif it_term != want:
+            ck.violation("C06.R1", inst + ":chains start from the negative batch", msite, "the chains do not start from neg_batch: %s" % (str(it_term)[:120],))
+        else:
+            ck.undecided("C06.R1", inst + ":chains start from the negative batch", msite, "the start state holds the batch's values but its number of rows is not decided: %s" % (show(ist.shape),))
+    else:
+        ck.check(None if isinstance(ist, (VTens, VUnknown)) else False, "C06.R1", inst + ":chains start from the negative batch", msite, "the chains do not start from neg_batch")
+    wr = [e for e in p.effects if e.kind == "write" and ("param:" + nb_name) in e.origins]
+    ck.check(not wr, "C06.R1", inst + ":negative batch not overwritten", wr[0].site if wr else msite, "the caller's negative batch is written in place")
+
+
 def run(ck):
     prog = ck.program
+    # ------------------------------------------------------------------ R1 (history) a second batch, smaller than the first
+    # (the last batch of an epoch when the batch size does not divide the data): its chains are its own negative batch, all of it
+    # and nothing else - whatever the state kept from the batch before
+    for cls in STATES:
+        msite = prog.method(cls, "compute_batch_gradients").site()
+        inst = "%s.compute_batch_gradients/after a larger batch" % cls
+        with ck.guard("C06.R1", inst, msite):
+            def th2(it, cls=cls):
+                s = make_state(it, cls)
+                k = VNum("int", T.sym("k"), nonneg=True)
+                wb = cls != "PositiveWaveFunction"
+                a1 = [k, tens(it, "S0", ("Bs0", "nv")), tens(it, "Nb0", ("Bn0", "nv"))] + ([api.bases_arr(it, "bases0", "Bs0")] if wb else [])
+                call(it, s, "compute_batch_gradients", *a1)
+                n0 = len(it.calls)
+                Nb = tens(it, "Nb", ("Bn", "nv"))
+                a2 = [k, tens(it, "S", ("Bs", "nv")), Nb] + ([api.bases_arr(it, "bases", "Bs")] if wb else [])
+                call(it, s, "compute_batch_gradients", *a2)
+                return n0, Nb
+
+            from .c03 import stub_gradient as _sg
+
+            for p in [q for q in paths_of(prog, th2, sticky="term", max_paths=24, stubs={"NeuralStateBase.gradient": _sg}) if q.outcome == "return"]:
+                n0, Nb = p.value
+                gs2 = [c for c in p.calls[n0:] if c[0].endswith(".gibbs_steps")]
+                if len(gs2) != 1:
+                    ck.undecided("C06.R1", inst, msite, "the second batch does not run exactly one chain evaluation (%d)" % len(gs2))
+                    continue
+                # a path on which the two batch sizes were found equal is the ordinary case
+                if True in cond_truths(p, lambda k_: k_[0] == "eq" and (k_[1].syms() | k_[2].syms()) == {"Bn", "Bn0"}):
+                    continue
+                _chain_start_verdict(ck, inst + " [%s]" % ",".join("%s=%s" % (c[1][:26], c[2]) for c in p.conds[-2:]), msite, p, gs2[0], Nb, "Nb", "Bn")
     # ------------------------------------------------------------------ R1 CD update as a linear form
     for cls in STATES:
         msite = prog.method(cls, "compute_batch_gradients").site()
@@ -85,9 +154,7 @@ def run(ck):
                     ck.check(genv.get("self").inst is am.inst, "C06.R1", inst + ":chains run on the amplitude network", msite, "the negative phase does not use rbm_am")
                     ck.check(num_term(genv.get("k")) == T.sym("k"), "C06.R1", inst + ":k Gibbs steps", msite, "gibbs_steps receives k = %r" % (num_term(genv.get("k")),))
                     ist = genv.get("initial_state")
-                    ck.check(isinstance(ist, VTens) and ist.obj is Nb.obj, "C06.R1", inst + ":chains start from the negative batch", msite, "the chains do not start from neg_batch")
-                    ow = genv.get("overwrite")
-                    ck.check(isinstance(ow, VConst) and ow.value is False, "C06.R1", inst + ":negative batch not overwritten", msite, "gibbs_steps may overwrite the negative batch")
+                    _chain_start_verdict(ck, inst, msite, p, gs[0], Nb, "Nb", "Bn")
                     vk = gs[0][4]
                     ev = eg[0][5].get("v")
                     ck.check(isinstance(ev, VTens) and isinstance(vk, VTens) and ev.obj is vk.obj, "C06.R1", inst + ":model gradient at the chain end", msite, "effective_energy_gradient is not evaluated on the k-step chain states")
